@@ -772,7 +772,12 @@ func (x *FnExec) checkCallAsserts(calleeName string, args []Val, ptypes []types.
 		short = short[i+1:]
 	}
 	for k, ca := range x.con.CallAsserts {
-		if !strings.Contains(calleeName, ca.Callee) {
+		if pat, ok := strings.CutSuffix(ca.Callee, "$"); ok {
+			// "name$": the callee's name ends with name (deleteLock$ does not match deleteLockRefs)
+			if !strings.HasSuffix(calleeName, pat) {
+				continue
+			}
+		} else if !strings.Contains(calleeName, ca.Callee) {
 			continue
 		}
 		envC := x.callerEnvAt(st)
